@@ -387,6 +387,9 @@ func (C02) Gen(rt *rapid.T, tier string) any {
 	sc.Kind = kind
 	nh := 3 + pick(rt, 6, "nhealthy")
 	addHealthy(rt, p, enabled, avoid, nh, 600_000)
+	if chance(rt, 15, "dup") {
+		addDuplicate(rt, p, victim)
+	}
 	if rapid.Bool().Draw(rt, "osrelease") && kind != "osrelease" {
 		p.add(FileSpec{Path: "etc/os-release", Src: Src{Text: osRelease}})
 	}
